@@ -12,7 +12,8 @@ SPECIAL_E = [1e-6, 1e-5, 1e-4, 1e-3, 1e-2, 0.1, 1.0, 10.0, 100.0, 510.998928, 1e
 SPECIAL_T = [0.0, 1e-8, -1e-8, PI / 2, -PI / 2, PI, -PI, 2 * PI, 3 * PI, PI / 3, 1.0, 4 * PI, -4 * PI]
 
 E_ST = hs.one_of(hs.floats(-6.0, 6.0).map(lambda x: 10.0 ** x), hs.sampled_from(SPECIAL_E))
-T_ST = hs.one_of(hs.floats(-4 * PI, 4 * PI), hs.sampled_from(SPECIAL_T))
+NEAR = [1e-6, -1e-5, 1e-4, -1e-3, 2e-3, 3e-3, -5e-3, 8e-3, 1e-2, -2e-2, 5e-2]      # neighbourhoods of the special angles: small-argument branches live here
+T_ST = hs.one_of(hs.floats(-4 * PI, 4 * PI), hs.sampled_from(SPECIAL_T), hs.tuples(hs.sampled_from(SPECIAL_T), hs.sampled_from(NEAR)).map(lambda p: p[0] + p[1]))
 T0PI_ST = hs.one_of(hs.floats(0.0, PI), hs.sampled_from([0.0, PI / 2, PI, 1e-8]))
 
 _GL = {}
@@ -233,6 +234,16 @@ def work(item):
                         res = f(st, E, th, ph)
                         if res:
                             st.violation(*res)
+        # neighbourhoods of the directions in which the polarised forms vanish (theta near +-pi/2, phi near 0 mod pi): every pair of small offsets
+        for E in SPECIAL_E:
+            for th0 in (PI / 2, -PI / 2, 3 * PI / 2):
+                for d1 in NEAR:
+                    for ph0 in (0.0, PI, -PI):
+                        for d2 in NEAR:
+                            for f in (r.azimuthal, r.symmetry):
+                                res = f(st, E, th0 + d1, ph0 + d2)
+                                if res:
+                                    st.violation(*res)
         k = 0
     elif rel == "order":
         # the value of a call does not depend on the call before it: the same argument tuples in E-major, theta-major, phi-major and
